@@ -13,7 +13,7 @@ import numpy as np
 
 from harness import common
 
-MODULES = ['CirqVerif.Props.C18', 'CirqVerif.Props.C18Views', 'CirqVerif.Props.C10']
+MODULES = ['CirqVerif.Props.C18', 'CirqVerif.Props.C18Views', 'CirqVerif.Props.C10', 'CirqVerif.Props.C12Terminal']
 
 
 def _exc(fn):
@@ -151,6 +151,7 @@ def run(ctx: common.Run):
     check_sampler(ctx, cirq)
     check_sampler_shapes(ctx, cirq)
     check_sampler_shapes_composite(ctx, cirq)
+    check_shapes_against_unrolling(ctx, cirq)
     check_simulated_records(ctx, cirq)
     check_processor_sampler(ctx, cirq)
     check_classical_store_ints(ctx, cirq)
@@ -520,6 +521,67 @@ def check_sampler_shapes_composite(ctx, cirq):
                     ctx.report_witness(f'sampler:shapes:composite:{name}', f'{name}.run(repetitions={reps}) of a circuit with sub-circuits / Pauli-product measurements does not report every key with shape (repetitions, instances, digits)',
                                        {'lines': [{'circuit': repr(circuit), 'repetitions': reps}], 'impl_out': [got], 'spec_out': [want], 'theorem_or_correspondence': 'record shapes'})
                     break
+
+
+def check_shapes_against_unrolling(ctx, cirq):
+    """for generated nestings of sub-circuit operations (repetitions, repetition ids, key maps, parent paths, qubit maps) the samplers
+    report every key with the number of instances and the width read off the Lean unrolling specification (Model.C12.recordShapes),
+    for zero and for two repetitions"""
+    from harness.props import c12
+
+    rng = ctx.substream('shapes-unrolling')
+    cases = []
+    for it in range(40 if ctx.tier == 'quick' else 400):
+        g = c12.Gen(rng)
+        moments, _ = g.body(rng.choice([1, 2, 2, 3]), set())
+
+        def strip(nodes):   # no classical control: what is recorded must not depend on outcomes
+            out = []
+            for n in nodes:
+                if 'op' in n:
+                    out.append({'op': dict(n['op'], conds=[])})
+                else:
+                    sub = dict(n['sub'], conds=[], body=[strip(m) for m in n['sub']['body']])
+                    if sub['reps'] < 0:
+                        sub['reps'] = -sub['reps']
+                        if sub['rep_ids'] is not None:
+                            sub['rep_ids'] = sub['rep_ids'][: sub['reps']]
+                    out.append({'sub': sub})
+            return out
+        cases.append((g, [strip(m) for m in moments]))
+    outs = ctx.driver.ask([{'p': 'C12', 'op': 'shapes', 'moments': m} for _, m in cases])
+    flats = ctx.driver.ask([{'p': 'C12', 'op': 'unroll', 'moments': m} for _, m in cases])
+    for (g, moments), out, flat in zip(cases, outs, flats):
+        widths = {}
+        for f in flat:
+            if f['mkey']:
+                widths.setdefault((tuple(f['mkey']['path']), f['mkey']['name']), set()).add(len(f['q']))
+        if any(len(w) > 1 for w in widths.values()):
+            ctx.count('shapes_unrolling', 'skipped: one key measured with two widths')
+            continue
+        b = c12.Builder(cirq, g.gates)
+        try:
+            wrapped = cirq.Circuit([cirq.Moment([b.node(x) for x in m]) for m in moments])
+        except ValueError as e:
+            ctx.count('shapes_unrolling', 'rejected: ' + str(e)[:40])
+            continue
+        want_base = {':'.join(r['key']['path'] + [r['key']['name']]): (r['instances'], r['width']) for r in out}
+        if not want_base:
+            continue
+        ctx.case(['shapes-unrolling', repr(moments)], any(v[0] > 1 for v in want_base.values()))
+        for name, mk, reps in (('ZerosSampler', cirq.ZerosSampler, 2), ('ZerosSampler', cirq.ZerosSampler, 0), ('Simulator', cirq.Simulator, 0), ('Simulator', cirq.Simulator, 2)):
+            ctx.count('view', 'shapes-unrolling')
+            try:
+                res = mk().run(wrapped, repetitions=reps)
+                got = {k: tuple(v.shape) for k, v in res.records.items()}
+            except (ValueError, TypeError, NotImplementedError) as e:
+                got = f'{type(e).__name__}: {e}'[:120]
+            want = {k: (reps, inst, w) for k, (inst, w) in want_base.items()}
+            if got != want:
+                ctx.report_witness(f'sampler:shapes:unrolling:{name}', f'{name}.run(repetitions={reps}) does not report the keys of a circuit with sub-circuit operations with the shapes of its unrolled form',
+                                   {'lines': [{'circuit': repr(wrapped)[:3000], 'structure': moments, 'repetitions': reps}], 'impl_out': [got], 'spec_out': [want],
+                                    'theorem_or_correspondence': 'Model.C12.recordShapes (C12_instances_repeated)'})
+                break
 
 
 def check_simulated_records(ctx, cirq):
